@@ -75,6 +75,18 @@ CLAIMED = {
    note="Crash = death of the sequential process between OS-level operations (short writes included); no fsync/reordering. "
         "Stored = unpicklable file, observed independently of pipefunc. Process-pool runs are not crashed.",
    technique="TLA+ crash model checked by TLC; fs-trace validation; exhaustive crash-point replay validated by TLC"),
+ "C08": dict(
+   category="model_checking", design_ref="6 C08",
+   text="MapSpecSem.tla: MapSpec AST, WellFormed, token-level Print/Parse, Shape, OutputKey, InputKeys, Rename, AddAxes and "
+        "their laws (round trip, row-major bijection, input keys select exactly the named positions, product rule, "
+        "rename/add_axes preserve well-formedness and denote the renamed/extended mapping); TLC checks the laws over a "
+        "TLA+-defined universe (<=2-3 inputs, <=2 outputs, rank<=3, ':' axes, scoped names, sizes 1..3/4, all linear indices, "
+        "mutation-generated malformed ASTs and token sequences) and exports expected values; every case is executed against "
+        "the real pipefunc.map.MapSpec (from_string/str/shape/output_key/input_keys/rename/add_axes/rejections) and compared; "
+        "returned ASTs for open outcomes are judged by TLC.",
+   note="Trusted: TLC, the token renderer (tokens -> string with whitespace). Don't-cares: duplicate array names, repeated "
+        "index inside one array, rank-0 arrays, text outside the grammar (rejected or accepted as well-formed).",
+   technique="TLA+ MapSpec semantics with laws checked by TLC; universe export compared against MapSpec"),
 }
 NOT_YET = "check not built yet in this round (specification module planned in DESIGN.md section 6)"
 
